@@ -303,7 +303,9 @@ class SoftTTLCache(Entity):
             entry = self._cache.get(key)
             if entry is not None and entry.is_valid(self.now, self._hard_ttl):
                 return entry.value
-            return None
+            # The refreshed entry is not (or no longer) there: evicted, invalidated,
+            # expired again, or the refresh found nothing. That does not mean the
+            # key does not exist - fetch it ourselves like any other hard miss.
 
         # Fetch from backing store (blocking)
         value = yield from self._backing_store.get(key)
